@@ -50,31 +50,39 @@ fn run_loop(names: &KeyNames, cfg_path: &std::path::Path, events: &[(String, u16
         nodelay: true,
     };
     let kanata = Kanata::new_arc(&args).map_err(|e| format!("{e:?}"))?;
-    let (tx, rx) = std::sync::mpsc::sync_channel(100);
+    // rendezvous channel: when `send` returns the thread has received the event
+    let (tx, rx) = std::sync::mpsc::sync_channel(0);
     Kanata::start_processing_loop(kanata.clone(), rx, None, true);
     let t0 = Instant::now();
+    let count_ticks = |k: &Kanata| k.kbd_out.outputs.events.iter().filter(|s| s.starts_with("t:")).count();
+    let mut ticks_before_last = 0usize;
     for (i, (kind, code)) in events.iter().enumerate() {
         let g = gaps_us.get(i).copied().unwrap_or(0);
         if g > 0 {
             std::thread::sleep(Duration::from_micros(g));
         }
+        if i + 1 == events.len() {
+            ticks_before_last = count_ticks(&kanata.lock());
+        }
         tx.send(key_event(kind, *code)?).map_err(|e| e.to_string())?;
     }
-    // wait until the thread has gone quiet: idle, and no new output for 40 ms (at most 5 s)
+    // wait until the thread has gone quiet: it ticked after the last event, is idle, and wrote nothing new for
+    // 80 ms (at most 8 s)
     let mut last_len = usize::MAX;
     let mut stable_since = Instant::now();
-    let deadline = Instant::now() + Duration::from_secs(5);
+    let deadline = Instant::now() + Duration::from_secs(8);
     let mut quiet = false;
     while Instant::now() < deadline {
         std::thread::sleep(Duration::from_millis(5));
         let k = kanata.lock();
         let n = k.kbd_out.outputs.events.len();
         let idle = k.is_idle();
+        let ticked = count_ticks(&k) > ticks_before_last;
         drop(k);
-        if n != last_len || !idle {
+        if n != last_len || !idle || !ticked {
             last_len = n;
             stable_since = Instant::now();
-        } else if stable_since.elapsed() > Duration::from_millis(40) {
+        } else if stable_since.elapsed() > Duration::from_millis(80) {
             quiet = true;
             break;
         }
@@ -161,5 +169,45 @@ pub fn cmd_loop_run(args: &[String]) -> i32 {
     let _ = std::fs::remove_file(&cfg_path);
     writeln!(w, "{}", json!({"e":"end"})).unwrap();
     w.flush().unwrap();
+    0
+}
+
+/// tick-budget <cfg.kbd> <out.json>
+/// Observation for spec/Loop.tla's TickBudget probe (not a verdict): with less than 1 ms elapsed `handle_time_ticks`
+/// keeps last_tick AND carries the elapsed time in time_remainder, so the next call counts the interval twice.
+/// Sets "0 ms elapsed", busy-waits ~0.6 ms, calls handle_time_ticks twice back to back (hooks behind cfg(kanata_verif)).
+/// Without double counting the two calls return 0 and 0 (0.6 ms elapsed in total); observed: [0, 1].
+pub fn cmd_tick_budget(args: &[String]) -> i32 {
+    let text = std::fs::read_to_string(&args[0]).expect("cfg file");
+    let mut sim = match Sim::new(&text, &[]) {
+        Ok(s) => s,
+        Err(e) => {
+            eprintln!("tick-budget: {e}");
+            return 2;
+        }
+    };
+    let mut attempts = vec![];
+    let mut observed = false;
+    for _ in 0..200 {
+        sim.k.verif_set_elapsed_ms(0);
+        let t0 = Instant::now();
+        while t0.elapsed() < Duration::from_micros(600) {
+            std::hint::spin_loop();
+        }
+        let a = sim.k.verif_handle_time_ticks(&None).unwrap_or(999);
+        let b = sim.k.verif_handle_time_ticks(&None).unwrap_or(999);
+        let us = t0.elapsed().as_micros() as u64;
+        if attempts.len() < 5 {
+            attempts.push(json!({"first": a, "second": b, "elapsed_us": us}));
+        }
+        if a == 0 && us < 1000 {
+            // a clean sample: less than 1 ms of wall clock in total
+            observed = b >= 1;
+            attempts.push(json!({"clean": true, "first": a, "second": b, "elapsed_us": us}));
+            break;
+        }
+    }
+    let res = json!({"double_count_observed": observed, "samples": attempts});
+    std::fs::write(&args[1], serde_json::to_string(&res).unwrap()).unwrap();
     0
 }
